@@ -155,7 +155,7 @@ def execute_runs(ctx, runs, prop):
         execs = sum(s["execs"] for s in sums)
         rep.evaluations += execs
         for s in sums:
-            if mode.startswith("guided"):
+            if "guided" in mode:
                 rep.drift += s["drift"]
                 rep.unguided += s["unguided"]
                 if s.get("first_drift"):
@@ -413,21 +413,49 @@ def run_c11(ctx):
     json.dump(scns, open(sp, "w"))
     hh = hashlib.sha1(open(os.path.join(os.path.dirname(os.path.abspath(__file__)), "msched.hpp"), "rb").read()).hexdigest()[:12]
     bargs = dict(name="mutex_driver", srcs=["engines/mutex/driver.cpp"], lib=LIB, defs=["MSCHED_HDR_HASH=0x" + hh])
+    exp = [s for s in scns if s["name"] in (("B", "J", "I") if quick else ("A", "B", "G", "I", "J", "Lq", "Q"))]
+    spe = os.path.join(ctx.work, "scenarios_c11e.json")
+    json.dump(exp, open(spe, "w"))
+    edges = os.path.join(ctx.work, "edges_c11.ndjson")
     with ThreadPoolExecutor(max_workers=2) as pool:
         fx = pool.submit(lambda: vlib.build(ctx, san="undefined", **bargs))
+        fe = pool.submit(lambda: vlib.model_check(ctx, "sync", "MutexV2MC", cfg="MutexV2C11.cfg", env={"SCENARIOS": spe, "EDGES": edges},
+                                                  workers=1, timeout=3000))
         # exhaustive: MutexV2 with SchedKind = rec; AffineCompletion + the mutex invariants
-        vlib.model_check(ctx, "sync", "MutexV2MC", cfg="MutexV2C11.cfg", env={"SCENARIOS": sp, "EDGES": ""}, workers=3, timeout=3000)
+        vlib.model_check(ctx, "sync", "MutexV2MC", cfg="MutexV2C11.cfg", env={"SCENARIOS": sp, "EDGES": ""}, workers=2 if quick else 3, timeout=3000)
         exe = fx.result()
+        fe.result()
     rep.exhaustive = True
+    # behaviours of the specification for guided replay
+    adj, inits, nedges = vlib.read_edges(edges)
+    walks = vlib.edge_cover(adj, inits)
+    cap = 400 if quick else 6000
+    if len(walks) > cap:
+        ctx.rng.shuffle(walks)
+        walks = walks[:cap]
+    walks += vlib.random_walks(adj, inits, 50 if quick else 1500, ctx.rng)
+    bp = os.path.join(ctx.work, "beh_c11.ndjson")
+    seen, nb = set(), 0
+    with open(bp, "w") as f:
+        for w in walks:
+            sched = [[e["th"], e["pc"]] for e in w if e["pc"] != ""]
+            k = json.dumps([w[0]["scn"], sched])
+            if k in seen:
+                continue
+            seen.add(k)
+            f.write(json.dumps(dict(scn=w[0]["scn"], sched=sched, st=w[-1]["obs"]["st"])) + "\n")
+            nb += 1
+    rep.note("edges_c11: edges %d, distinct visible schedules %d" % (nedges, nb))
     byid = {s["id"]: s for s in scns}
     runs = [
+        ("c11-guided", exe, sp, ["--mode", "guided", "--level", 1, "--behaviours", bp], nb, byid),
         ("c11-dfs-l1", exe, sp, ["--mode", "dfs", "--level", 1, "--bound", 2 if quick else 3, "--cap", 200 if quick else 2000], len(scns), byid),
         ("c11-dfs-l2", exe, sp, ["--mode", "dfs", "--level", 2, "--bound", 2, "--cap", 100 if quick else 1000], len(scns), byid),
         ("c11-random-l2", exe, sp, ["--mode", "random", "--level", 2, "--seed", ctx.seed, "--cap", 150 if quick else 1500], len(scns), byid),
         ("c11-random-l1", exe, sp, ["--mode", "random", "--level", 1, "--seed", ctx.seed + 1000, "--cap", 100 if quick else 1000], len(scns), byid),
     ]
     execute_runs(ctx, runs, "C11")
-    rep.rule("mutex/C11: executions = DFS(preemption-bounded, two granularities) + seeded random schedules of the real "
+    rep.rule("mutex/C11: executions = guided replays of TLC behaviours of MutexV2 (SchedKind = rec) + DFS(preemption-bounded, two granularities) + seeded random schedules of the real "
              "v2::async_mutex whose receivers report a per-thread recording scheduler; the monitor compares the thread that "
              "delivers Acquired/Done with the thread that started the attempt")
 
